@@ -33,7 +33,7 @@ def build_event_reader(u, er):
                 final(tr).same_uploads(*old(tr)),
 """, e9=[("remove_file(&file)", None, "file: &PathBuf, " + TR, "&file, Tracked(tr)", "std::io::Result<()>",
           "    ensures final(tr).removed == old(tr).removed.push(*file), final(tr).same_uploads(*old(tr)),",
-          dict(body="remove_file(file)", name="vx_e9_remove_file"))])
+          dict(body="remove_file(file)", name="vx_e9_remove_file"))], pre_body="broadcast use group_fmt_telemetry;")
     u.take_fn(er, "EventReader::send_data_to_wire_server", ret="", ghost=TR,
               ghost_calls=[("send_telemetry_data", None, "Tracked(tr)")], contract="""
         requires old(tr).wf(),
@@ -42,8 +42,8 @@ def build_event_reader(u, er):
                 final(tr).removed == old(tr).removed,
                 final(tr).batches == (if telemetry_data@.len() > 0 { old(tr).batches.push(telemetry_data@) } else { old(tr).batches }),  // @C18.send_data_to_wire_server.one_batch_per_nonempty_data
                 telemetry_data@.len() == 0 ==> final(tr).posts == old(tr).posts,  // @C18.send_data_to_wire_server.empty_batch_is_not_uploaded
-""", pre_body="broadcast use lemma_repeat_len, lemma_concat_push;",
-              loop_iter_names={0: "it"}, loop_attrs={0: "#[verifier::loop_isolation(false)]"}, loops={0: """
+""", pre_body="broadcast use lemma_repeat_len, lemma_concat_push, lemma_xml_nonempty, group_fmt_telemetry;",
+              loop_iter_names={0: "it"}, loop_attrs={0: "#[verifier::loop_isolation(false)] #[verifier::allow_complex_invariants]"}, loops={0: """
             invariant_except_break
                 tr.posts == old(tr).posts + repeat(xml_of(telemetry_data@), it.index@ as int),
             invariant
@@ -54,7 +54,8 @@ def build_event_reader(u, er):
                 1 <= tr.posts.len() - old(tr).posts.len() <= 5,  // @C18.send_data_to_wire_server.at_most_5_attempts
                 tr.batches == old(tr).batches, tr.attempts == old(tr).attempts, tr.removed == old(tr).removed,
 """},
-              e9=[("[0; 5]", None, "", "", "VxArrIter5", "    ensures vstd::std_specs::iter::IteratorSpec::remaining(&r).len() == 5,",
+              e9=[("tokio::time::sleep(Duration::from_secs(15)).await", None, "", "", "", "", dict(is_async=True, name="vx_e9_sleep_15s", no_await=False)),
+                  ("[0; 5]", None, "", "", "VxArrIter5", "    ensures vstd::std_specs::iter::IteratorSpec::remaining(&r).len() == 5,",
                    dict(wrap="VxArrIter5", body="[0; 5].into_iter()", name="vx_e11_retry_5"))],
               hints=[("for _ in", None, "after", """proof {
             let k = tr.posts.len() - old(tr).posts.len();
@@ -63,17 +64,49 @@ def build_event_reader(u, er):
             assert(tr.batches.drop_last() =~= old(tr).batches);
             assert(tr.attempts.drop_last() =~= old(tr).attempts);
         }""")])
+    ACCT = """
+                forall|t: TelemetryEvent| cnt(flat(tr.batches), t) + %s cnt(tevs(events@, vm), t) <= cnt(flat(old(tr).batches), t) + #[trigger] cnt(input, t),
+                forall|t: TelemetryEvent| cnt(flat(tr.batches), t) + %s cnt(tevs(events@, vm), t) < cnt(flat(old(tr).batches), t) + #[trigger] cnt(input, t) ==> oversize_alone(t),
+"""
     u.take_fn(er, "EventReader::send_events", ret="", ghost=TR,
               ghost_calls=[("Self::send_data_to_wire_server", None, "Tracked(tr)")], contract="""
         requires old(tr).wf(),
         ensures final(tr).wf(),
-""")
+                final(tr).removed == old(tr).removed,
+                old(tr).batches.len() <= final(tr).batches.len() && final(tr).batches.subrange(0, old(tr).batches.len() as int) == old(tr).batches,
+                delivered_at_most_once(tevs(events@, *vm_meta_data), new_batches(*old(tr), *final(tr))),  // @C18.send_events.each_event_in_at_most_one_batch
+                dropped_only_if_oversize(tevs(events@, *vm_meta_data), new_batches(*old(tr), *final(tr))),  // @C18.send_events.dropped_only_if_too_large_alone
+                forall|i: int| 0 <= i < new_batches(*old(tr), *final(tr)).len() ==> batch_ok(#[trigger] new_batches(*old(tr), *final(tr))[i]),  // @C18.send_events.every_batch_nonempty_and_smaller_than_64KiB
+""", pre_body="""broadcast use group_send_events;
+let ghost vm = *vm_meta_data;
+let ghost input = tevs(events@, vm);
+proof { assert(old(tr).batches.subrange(0, old(tr).batches.len() as int) =~= old(tr).batches); }""",
+              loop_attrs={0: "#[verifier::loop_isolation(false)]", 1: "#[verifier::loop_isolation(false)] #[verifier::allow_complex_invariants]"},
+              loops={0: """
+            invariant
+                tr.wf(),
+                tr.removed == old(tr).removed,
+                old(tr).batches.len() <= tr.batches.len() && tr.batches.subrange(0, old(tr).batches.len() as int) == old(tr).batches,""" + ACCT % ("", "") + """
+            decreases events@.len(),  // @C18.send_events.terminates
+""", 1: """
+                invariant
+                    n0 >= 1,
+                    add_more_events ==> events@.len() + telemetry_data@.len() == n0,
+                    !add_more_events ==> events@.len() < n0,
+                    telemetry_data@.len() >= 1 ==> xml_len(telemetry_data@) < LIMIT(),""" + ACCT % ("cnt(telemetry_data@, t) +", "cnt(telemetry_data@, t) +") + """
+                ensures events@.len() < n0,
+                decreases events@.len() + (if add_more_events { 1int } else { 0int }),  // @C18.send_events.batch_filling_terminates
+"""},
+              hints=[("let mut telemetry_data = TelemetryData::new();", None, "before", "let ghost n0 = events@.len();"),
+                     ("while !events.is_empty()", 0, "after", "proof { lemma_new_batches(*old(tr), *tr, input); }")],
+              e9=[("serde_json::to_string(&event)", None, "event: &Event", "&event", "core::result::Result<String, serde_json::Error>", "", dict(body="serde_json::to_string(event)", name="vx_e9_event_to_json")),
+                  ("vm_meta_data.clone()", None, "vm_meta_data: &VmMetaData", "vm_meta_data", "VmMetaData", "    ensures r == *vm_meta_data,", dict(name="vx_e9_vm_meta_data_clone"))])
     u.take_fn(er, "EventReader::process_events_and_clean", ghost=TR,
               ghost_calls=[("Self::send_events", None, "Tracked(tr)"), ("Self::clean_files", None, "Tracked(tr)")], contract="""
         requires old(tr).wf(),
         ensures final(tr).wf(),
                 final(tr).removed == old(tr).removed + files@,  // @C18.process_events_and_clean.every_input_file_is_cleaned
-""")
+""", pre_body="broadcast use group_fmt_telemetry;")
 
 
 def build(u):
